@@ -218,7 +218,8 @@ def csr_colls(case, ctx):
                              mergebuf=case["mergebuf"], max_merge=case["max_merge"], temp_dir=d)
         uris.append(f2 + "::/u")
         if case.get("zoom"):
-            cooler.zoomify_cooler(f1 + "::/", f3, case["zoom"], chunksize=case["chunk"], nproc=1)
+            # the base is the root collection, or the collection in the group /b NEXT TO another one at the root
+            cooler.zoomify_cooler(f1 + ("::/b" if case.get("zoom_nested") else "::/"), f3, case["zoom"], chunksize=case["chunk"], nproc=1)
             uris += [f3 + "::" + p for p in cooler.fileops.list_coolers(f3)]
         cells = {"cellx": _frame(case["px1"]), "celly": _frame(case["px2"]), "empty": _frame([])}
         cooler.create_scool(f4, bins, cells, ordered=True, symmetric_upper=symm)
